@@ -5,11 +5,13 @@ import Pyc.Model.Basic
 Transliteration of what the code *does*.  Python `str` is modelled as `List Char` (code points), a list of 5-bit
 values as `List Nat`.  Notable behaviours kept on purpose:
 
-* `bech32_verify_checksum` accepts the Bech32 constant `1` **and** the Bech32m constant `0x2BC830A3`;
-* `bech32_decode` limits the whole string to 108 characters (not the 90 of BIP-173);
-* `encode` re-decodes its own output and returns `None` when that fails (e.g. more than 108 characters);
+* `bech32_verify_checksum` still recognises the Bech32 constant `1` **and** the Bech32m constant `0x2BC830A3`, but
+  `bech32_decode` returns `(None, None, None)` unless the checksum verifies as Bech32 (`spec != Encoding.BECH32`);
+* there is no length limit (CIP-19: Cardano addresses are Bech32 without the 90-character limit of BIP-173), neither
+  on the string in `bech32_decode` nor on the payload in `decode`;
+* `encode` re-decodes its own output and returns `None` when that fails;
 * `decode` raises `TypeError` (iteration over `None`) when `bech32_decode` rejects, and returns `None` when the
-  regrouping fails or the payload has fewer than 2 / more than 108 bytes.
+  regrouping fails or the payload has fewer than 2 bytes.
 -/
 
 namespace Pyc.Bech32
@@ -95,14 +97,14 @@ def bech32Decode (bech : List Char) : Option (List Char × List Nat × Encoding)
     match rfind '1' bech with
     | none => none                                   -- pos = -1 < 1
     | some pos =>
-      if pos < 1 || pos + 7 > bech.length || bech.length > 108 then none
+      if pos < 1 || pos + 7 > bech.length then none
       else if !((bech.drop (pos + 1)).all fun x => charset.contains x) then none
       else
         let hrp := bech.take pos
         let data := (bech.drop (pos + 1)).map fun x => charset.idxOf x
         match verifyChecksum hrp data with
-        | none => none
-        | some spec => some (hrp, data.take (data.length - 6), spec)
+        | some .bech32 => some (hrp, data.take (data.length - 6), .bech32)
+        | _ => none                                    -- `spec != Encoding.BECH32`: `None` and `BECH32M`
 
 /-- inner `while bits >= tobits: bits -= tobits; ret.append((acc >> bits) & maxv)` of `convertbits`
 (Python does not terminate for `tobits = 0`; the model stops) -/
@@ -149,7 +151,7 @@ def decode (addr : List Char) : DecodeResult :=
   | some (_, data, _) =>
     match convertbits data 5 8 false with
     | none => .none
-    | some decoded => if decoded.length < 2 ∨ decoded.length > 108 then .none else .ok decoded
+    | some decoded => if decoded.length < 2 then .none else .ok decoded
 
 /-- `encode(hrp, witprog)`; `none` = `return None` (own output does not decode) or an exception -/
 def encode (hrp : List Char) (witprog : Bytes) : Option (List Char) :=
